@@ -251,6 +251,84 @@ func VH_omap_Drain() {
 	vCheckMap(m, r, "drained")
 }
 
+// vFKeyOf maps a choice index to a float64 key; index 0 is NaN (floats are
+// concrete in the engine: every value is a forked choice).
+func vFKeyOf(i int) float64 {
+	var zero float64
+	if i == 0 {
+		return zero / zero
+	}
+	return float64(i - 2)
+}
+
+func vFKeyIs(a, b float64) bool { return a == b || a != a && b != b }
+
+// VH_omap_FloatKeys: the natural order of an ordered key type is cmp.Compare,
+// under which NaN is a proper key (below everything, equal to itself). A short
+// history of Set/Delete over float64 keys including NaN against a reference
+// kept sorted by cmp.Compare.
+func VH_omap_FloatKeys() {
+	m := New[float64, int]()
+	var keys []float64
+	var vals []int
+	find := func(k float64) (int, bool) {
+		for i, x := range keys {
+			if c := cmp.Compare(k, x); c == 0 {
+				return i, true
+			} else if c < 0 {
+				return i, false
+			}
+		}
+		return len(keys), false
+	}
+	for st := 0; st < vCase("steps"); st++ {
+		k := vFKeyOf(vChoice("key", 4))
+		pos, present := find(k)
+		if vChoice("delete", 2) == 1 {
+			vAssert(m.Delete(k) == present, "Delete reports whether the key was present (float keys)")
+			if present {
+				keys = append(append([]float64{}, keys[:pos]...), keys[pos+1:]...)
+				vals = append(append([]int{}, vals[:pos]...), vals[pos+1:]...)
+			}
+		} else {
+			vAssert(m.Set(k, 10+st) == !present, "Set reports true exactly for new keys (float keys)")
+			if present {
+				vals = append([]int{}, vals...)
+				vals[pos] = 10 + st
+			} else {
+				keys = append(append(append([]float64{}, keys[:pos]...), k), keys[pos:]...)
+				vals = append(append(append([]int{}, vals[:pos]...), 10+st), vals[pos:]...)
+			}
+		}
+		vAssert(m.Len() == len(keys), "Len (float keys)")
+		got := m.Keys()
+		vAssert(len(got) == len(keys), "Keys: one per entry (float keys)")
+		for i := range got {
+			if i < len(keys) {
+				vAssert(vFKeyIs(got[i], keys[i]), "Keys in ascending natural order (float keys)")
+			}
+		}
+		for i, x := range keys {
+			v, ok := m.GetOK(x)
+			vAssert(ok && v == vals[i], "GetOK finds every key with its latest value (float keys)")
+		}
+		i := 0
+		for it := m.First(); it.IsValid(); it.Next() {
+			vAssert(i < len(keys) && vFKeyIs(it.Key(), keys[i]) && it.Value() == vals[i], "First/Next visit the entries in order (float keys)")
+			i++
+		}
+		vAssert(i == len(keys), "First/Next visit every entry (float keys)")
+		t := vFKeyOf(vChoice("seek", 4))
+		tp, _ := find(t)
+		it := m.Seek(t)
+		vAssert(it.IsValid() == (tp < len(keys)), "Seek: valid exactly when some key is >= the target (float keys)")
+		if it.IsValid() && tp < len(keys) {
+			vAssert(vFKeyIs(it.Key(), keys[tp]), "Seek: first key >= the target (float keys)")
+		}
+	}
+	vCover("float-keys")
+}
+
 func VH_omap_Zero() {
 	var z Map[int, int]
 	vAssert(z.Len() == 0, "zero Map: Len 0")
